@@ -238,6 +238,9 @@ func c18ApplyBatch(r *verifkit.Run, variant string, m *c18Machine, entries []c18
 	r.Eval(1)
 	r.Count("batches."+variant, 1)
 	r.Max("max_batch_len", hi-lo)
+	if variant == "B" || variant == "X" {
+		c18CountDependentPairs(r, entries, lo, hi)
+	}
 	if err != nil {
 		// healthy store + committed log: the only error sources are Encode's
 		// validation of an invalid candidate state or a checksum failure.
@@ -294,6 +297,124 @@ func c18ApplyBatch(r *verifkit.Run, variant string, m *c18Machine, entries []c18
 		r.Violation("result-revision-differs-from-state:"+variant, map[string]any{"result": last.Revision, "state": snap.Revision})
 	}
 	return out.Results
+}
+
+// c18Entities names the state entities a command's guard or effect depends on.
+func c18Entities(c command.Command) []string {
+	var out []string
+	node := func(id uint64) { out = append(out, fmt.Sprintf("node:%d", id)) }
+	slot := func(id uint32) { out = append(out, fmt.Sprintf("slot:%d", id)) }
+	task := func(id string) { out = append(out, "task:"+id) }
+	switch c.Kind {
+	case command.KindInitClusterState:
+		out = append(out, "init")
+	case command.KindUpsertNode:
+		if c.Node != nil {
+			node(c.Node.NodeID)
+		}
+	case command.KindUpdateControllerVoters:
+		out = append(out, "controllers")
+		for _, v := range c.Controllers {
+			node(v.NodeID)
+		}
+	case command.KindPromoteControllerVoter:
+		out = append(out, "controllers")
+		if c.ControllerVoterPromotion != nil {
+			node(c.ControllerVoterPromotion.TargetNodeID)
+		}
+	case command.KindReplaceHashSlotTable:
+		out = append(out, "hashslots")
+	case command.KindReplaceScheduledBackupState:
+		out = append(out, "backup")
+	case command.KindReplaceOpsMCPState:
+		out = append(out, "opsmcp")
+		if c.OpsMCP != nil && c.OpsMCP.OwnerNodeID != 0 {
+			node(c.OpsMCP.OwnerNodeID)
+		}
+	case command.KindUpsertSlotAssignmentAndTask, command.KindUpsertSlotReplicaMoveTask:
+		if c.Assignment != nil {
+			slot(c.Assignment.SlotID)
+		}
+		if c.Task != nil {
+			slot(c.Task.SlotID)
+			task(c.Task.TaskID)
+		}
+	case command.KindAdvanceSlotReplicaMovePhase:
+		if c.SlotReplicaMovePhase != nil {
+			slot(c.SlotReplicaMovePhase.SlotID)
+			task(c.SlotReplicaMovePhase.TaskID)
+		}
+	case command.KindCommitSlotReplicaMove:
+		if c.SlotReplicaMoveCommit != nil {
+			slot(c.SlotReplicaMoveCommit.SlotID)
+			task(c.SlotReplicaMoveCommit.TaskID)
+		}
+	case command.KindCompleteTask, command.KindFailTask:
+		if c.TaskResult != nil {
+			slot(c.TaskResult.SlotID)
+			task(c.TaskResult.TaskID)
+		}
+	case command.KindReportTaskProgress:
+		if c.TaskProgress != nil {
+			slot(c.TaskProgress.SlotID)
+			task(c.TaskProgress.TaskID)
+		}
+	case command.KindReportNodeHealth:
+		if c.NodeHealth != nil {
+			node(c.NodeHealth.NodeID)
+		}
+	}
+	return out
+}
+
+var c18AllKinds = []command.Kind{command.KindInitClusterState, command.KindUpsertNode, command.KindUpdateControllerVoters, command.KindPromoteControllerVoter, command.KindUpsertSlotAssignmentAndTask, command.KindUpsertSlotReplicaMoveTask, command.KindAdvanceSlotReplicaMovePhase, command.KindCommitSlotReplicaMove, command.KindCompleteTask, command.KindFailTask, command.KindReportTaskProgress, command.KindReportNodeHealth, command.KindReplaceHashSlotTable, command.KindReplaceScheduledBackupState, command.KindReplaceOpsMCPState}
+
+var (
+	c18PairsInBatch = map[command.Kind]int{} // kind of the LATER command of a dependent pair that shares a batch
+	c18PairsSplit   = map[command.Kind]int{} // adjacent dependent pair separated by a batch boundary
+)
+
+// c18CountDependentPairs records, for evidence, how often a command shares its
+// batch with an earlier command on the same entity (same node, slot, task,
+// singleton), per kind and per same-kind / cross-kind, and how often an
+// adjacent dependent pair is cut by the batch boundary in front of this batch.
+func c18CountDependentPairs(r *verifkit.Run, entries []c18Entry, lo, hi int) {
+	share := func(a, b command.Command) bool {
+		for _, x := range c18Entities(a) {
+			for _, y := range c18Entities(b) {
+				if x == y {
+					return true
+				}
+			}
+		}
+		return false
+	}
+	for j := lo + 1; j < hi; j++ {
+		same, cross := false, false
+		for i := lo; i < j; i++ {
+			if share(entries[i].Cmd, entries[j].Cmd) {
+				if entries[i].Cmd.Kind == entries[j].Cmd.Kind {
+					same = true
+				} else {
+					cross = true
+				}
+			}
+		}
+		k := entries[j].Cmd.Kind
+		if same || cross {
+			c18PairsInBatch[k]++
+		}
+		if same {
+			r.Count("dependent_pair_in_one_batch.same_kind."+string(k), 1)
+		}
+		if cross {
+			r.Count("dependent_pair_in_one_batch.related_kind."+string(k), 1)
+		}
+	}
+	if lo > 0 && share(entries[lo-1].Cmd, entries[lo].Cmd) {
+		c18PairsSplit[entries[lo].Cmd.Kind]++
+		r.Count("dependent_pair_split_by_batch_boundary."+string(entries[lo].Cmd.Kind), 1)
+	}
 }
 
 type c18Ref struct {
@@ -359,7 +480,7 @@ func c18Compare(r *verifkit.Run, variant string, ref *c18Ref, m *c18Machine, res
 		}
 		want := ref.results[i]
 		if c18ResultJSON(got) != c18ResultJSON(want) {
-			r.Violation("result-differs-from-one-by-one:"+variant, map[string]any{"entry": i, "index": e.Index, "kind": e.Cmd.Kind, "one_by_one": c18ResultJSON(want), "batched": c18ResultJSON(got), "cmd": string(e.Raw)})
+			r.Violation("result-differs-from-one-by-one:"+variant+":"+string(e.Cmd.Kind), map[string]any{"entry": i, "index": e.Index, "kind": e.Cmd.Kind, "one_by_one": c18ResultJSON(want), "batched": c18ResultJSON(got), "cmd": string(e.Raw)})
 		}
 		if got.Changed {
 			sawChanged = true
@@ -744,4 +865,15 @@ func TestVerifC18(t *testing.T) {
 			break
 		}
 	}
+	zeroIn, zeroSplit := []string{}, []string{}
+	for _, k := range c18AllKinds {
+		if c18PairsInBatch[k] == 0 {
+			zeroIn = append(zeroIn, string(k))
+		}
+		if c18PairsSplit[k] == 0 {
+			zeroSplit = append(zeroSplit, string(k))
+		}
+	}
+	r.Note("kinds_without_dependent_pair_in_one_batch", zeroIn)
+	r.Note("kinds_without_dependent_pair_split_by_boundary", zeroSplit)
 }
